@@ -21,6 +21,7 @@ def traceM : St → Nat → List Ev → List (Nat × Op × Obs)
 def loginOf (a : Nat) (e : Nat × Op × Obs) : Option LoginRes :=
   match e.2.1, e.2.2 with
   | .login req _ _, .login r => if attemptAddr req = a then some r else none
+  | .basic req _, .login r => if attemptAddr req = a then some r else none
   | _, _ => none
 
 def isRestart (e : Nat × Op × Obs) : Bool :=
@@ -32,9 +33,10 @@ def isRestart (e : Nat × Op × Obs) : Bool :=
 def failTimes (a : Nat) (tr : List (Nat × Op × Obs)) : List Nat :=
   tr.filterMap (fun e => match loginOf a e with | some .forbidden => some e.1 | _ => none)
 
-/-- no restart and no successful login from `a` -/
+/-- no restart and no successful login (form or Basic) from `a` -/
 def noClear (a : Nat) (tr : List (Nat × Op × Obs)) : Bool :=
-  tr.all (fun e => !isRestart e && (match loginOf a e with | some (.ok _) => false | _ => true))
+  tr.all (fun e => !isRestart e &&
+    (match loginOf a e with | some (.ok _) => false | some .passed => false | _ => true))
 
 /-- After the trace nothing is being counted for `a`: scanning forward, the
 last relevant event is a restart or a successful login from `a` (or there is
@@ -45,6 +47,7 @@ def cleanAfter (a : Nat) : Bool → List (Nat × Op × Obs) → Bool
     if isRestart e then cleanAfter a true tr
     else match loginOf a e with
       | some (.ok _) => cleanAfter a true tr
+      | some .passed => cleanAfter a true tr
       | some .forbidden => cleanAfter a false tr
       | _ => cleanAfter a c tr
 
@@ -69,6 +72,11 @@ theorem specStep_conf (sp : Spec) (now : Nat) (o : Op) (obs : Obs) :
     (specStep sp now o obs).2.blockDur = sp.blockDur := by
   cases o with
   | login req good user =>
+    cases obs with
+    | login r => simp only [specStep]; split <;> exact ⟨rfl, rfl, rfl⟩
+    | auth b => exact ⟨rfl, rfl, rfl⟩
+    | done => exact ⟨rfl, rfl, rfl⟩
+  | basic req good =>
     cases obs with
     | login r => simp only [specStep]; split <;> exact ⟨rfl, rfl, rfl⟩
     | auth b => exact ⟨rfl, rfl, rfl⟩
@@ -105,6 +113,7 @@ theorem failsOf_specStep (sp : Spec) (now : Nat) (o : Op) (obs : Obs) (a : Nat) 
       if isRestart (now, o, obs) then (match obs with | .done => [] | _ => failsOf sp a)
       else match loginOf a (now, o, obs) with
         | some (.ok _) => []
+        | some .passed => []
         | some .forbidden => counted sp a now ++ [now]
         | _ => failsOf sp a := by
   cases o with
@@ -119,12 +128,35 @@ theorem failsOf_specStep (sp : Spec) (now : Nat) (o : Op) (obs : Obs) (a : Nat) 
         | tooMany x => rfl
         | forbidden => simp [specStep, failsOf, FMap.set]
         | ok t => simp [specStep, failsOf, FMap.set]
+        | passed => simp [specStep, failsOf, FMap.set]
       · simp only [ha, if_false]
         have hne : a ≠ attemptAddr req := fun e => ha e.symm
         cases r with
         | tooMany x => rfl
         | forbidden => simp [specStep, failsOf, FMap.set, hne]
         | ok t => simp [specStep, failsOf, FMap.set, hne]
+        | passed => simp [specStep, failsOf, FMap.set, hne]
+    | auth b => rfl
+    | done => rfl
+  | basic req good =>
+    cases obs with
+    | login r =>
+      simp only [isRestart, loginOf, Bool.false_eq_true, if_false]
+      by_cases ha : attemptAddr req = a
+      · subst ha
+        simp only [if_true]
+        cases r with
+        | tooMany x => rfl
+        | forbidden => simp [specStep, failsOf, FMap.set]
+        | ok t => simp [specStep, failsOf, FMap.set]
+        | passed => simp [specStep, failsOf, FMap.set]
+      · simp only [ha, if_false]
+        have hne : a ≠ attemptAddr req := fun e => ha e.symm
+        cases r with
+        | tooMany x => rfl
+        | forbidden => simp [specStep, failsOf, FMap.set, hne]
+        | ok t => simp [specStep, failsOf, FMap.set, hne]
+        | passed => simp [specStep, failsOf, FMap.set, hne]
     | auth b => rfl
     | done => rfl
   | request tok =>
@@ -180,6 +212,7 @@ theorem failsOf_clean (a : Nat) : ∀ (evs : List Ev) (st : St) (sp : Spec) (now
         | tooMany x => exact failsOf_clean a evs _ _ now c (fun hc' => by rw [hf]; exact hc hc') h
         | forbidden => exact failsOf_clean a evs _ _ now false (fun hc' => by cases hc') h
         | ok t => exact failsOf_clean a evs _ _ now true (fun _ => hf) h
+        | passed => exact failsOf_clean a evs _ _ now true (fun _ => hf) h
 
 /-- L2: with no restart and no success of `a`, failures that all fall within a
 minute of the first and do not exceed the limit accumulate in the spec's list. -/
@@ -208,6 +241,7 @@ theorem failsOf_run (a : Nat) : ∀ (evs : List Ev) (st : St) (sp : Spec) (now :
       rw [hlo] at hf hl hw hok
       cases r with
       | ok t => simp at hok
+      | passed => simp at hok
       | tooMany x =>
         simp only at hl hw ⊢
         exact failsOf_run a evs _ _ now p (by rw [hf]; exact hp) hn' (by rw [hmax]; exact hl) hw
@@ -285,6 +319,48 @@ theorem simThr_login {st : St} {sp : Spec} {now : Nat} (hthr : SimThr st sp now)
         · exact c3
         · exact inc_spec c2 c3 c1 addr
 
+theorem simThr_basic {st : St} {sp : Spec} {now : Nat} (hthr : SimThr st sp now) (req : Req) (good : Bool) :
+    SimThr (basicAuthX true st now req good).2
+      (specStep sp now (.basic req good) (.login (basicAuthX true st now req good).1)).2 now := by
+  obtain ⟨addr, hdr, tr⟩ := req
+  cases hrl : st.rl with
+  | none =>
+    unfold SimThr at hthr
+    rw [hrl] at hthr
+    rw [basic_none hrl]
+    cases good with
+    | true =>
+      simp only [if_true, specStep, attemptAddr]
+      unfold SimThr; rw [hrl]; exact hthr
+    | false =>
+      simp only [Bool.false_eq_true, if_false, specStep, attemptAddr]
+      unfold SimThr; rw [hrl]; exact hthr
+  | some l =>
+    unfold SimThr at hthr
+    rw [hrl] at hthr
+    obtain ⟨hen, hmax, hbd, hrecs⟩ := hthr
+    obtain ⟨c1, c2, c3, c4⟩ := check_spec hen hmax hbd hrecs addr
+    by_cases hleft : (l.check addr now).1 > 0
+    · rw [basic_blocked hrl hleft]
+      simp only [specStep]
+      exact simThr_of_exact hen c2 c3 c1 _ rfl
+    · rw [basic_pass hrl hleft]
+      cases good with
+      | true =>
+        simp only [if_true, specStep, attemptAddr]
+        refine simThr_of_exact (l := (l.check addr now).2.remove addr) ?_ ?_ ?_ ?_ _ rfl
+        · exact hen
+        · exact c2
+        · exact c3
+        · exact remove_spec c1 addr sp.toks sp.issued
+      | false =>
+        simp only [Bool.false_eq_true, if_false, specStep, attemptAddr]
+        refine simThr_of_exact (l := (l.check addr now).2.inc addr now) ?_ ?_ ?_ ?_ _ rfl
+        · exact hen
+        · exact c2
+        · exact c3
+        · exact inc_spec c2 c3 c1 addr
+
 theorem checkSession_rl (st : St) (now tok : Nat) : (checkSession st now tok).2.rl = st.rl := by
   unfold checkSession
   cases st.mem tok with
@@ -318,6 +394,7 @@ theorem simThr_step {st : St} {sp : Spec} {now : Nat} (h : SimThr st sp now) (op
     SimThr (step st now op).2 (specStep sp now op (step st now op).1).2 now := by
   cases op with
   | login req good user => exact simThr_login h req good user
+  | basic req good => exact simThr_basic h req good
   | request tok =>
     simp only [step]
     refine simThr_congr h (checkSession_rl st now tok) ?_ ?_ ?_ ?_ <;>
@@ -370,5 +447,26 @@ theorem threshold_thr {st : St} {sp : Spec} {now : Nat} (hthr : SimThr st sp now
       rw [hrej] at c4; simpa using c4
     rw [login_blocked hrl hleft]
     exact ⟨⟨_, rfl⟩, rfl, rfl, rfl⟩
+
+
+/-- the same for HTTP Basic credentials (with the repair) -/
+theorem threshold_thr_basic {st : St} {sp : Spec} {now : Nat} (hthr : SimThr st sp now)
+    (req : Req) (good : Bool) (hrej : mustReject sp (attemptAddr req) now = true) :
+    (∃ r, (basicAuthX true st now req good).1 = .tooMany r) ∧
+    (basicAuthX true st now req good).2.evals = st.evals := by
+  have hrej : mustReject sp req.peer now = true := hrej
+  unfold SimThr at hthr
+  cases hrl : st.rl with
+  | none =>
+    rw [hrl] at hthr
+    simp [mustReject, hthr] at hrej
+  | some l =>
+    rw [hrl] at hthr
+    obtain ⟨hen, hmax, hbd, hrecs⟩ := hthr
+    obtain ⟨_, _, _, c4⟩ := check_spec hen hmax hbd hrecs req.peer
+    have hleft : (l.check req.peer now).1 > 0 := by
+      rw [hrej] at c4; simpa using c4
+    rw [basic_blocked hrl hleft]
+    exact ⟨⟨_, rfl⟩, rfl⟩
 
 end AGH.C12
